@@ -659,6 +659,41 @@ theorem sys_backlog_read_ends (P : SProto Q) (s : Sys Q) (es : List SEv) (tmo : 
 example : LossSys.Answers LossSys.linesS exReq [0x36, 0x32, 0x30, 0x31, 0x0A] [0x62, 0x01] :=
   fun _ => ⟨_, _, rfl, rfl, rfl⟩
 
+/-- no fabrication over whole executions: whatever `request()` returns is the payload of a message that was completely
+    received on connection `j` (`FromConn`: it lies in the queue that connection has after peer deliveries on it), and
+    `j` is the connection the last write of the request went out on - the write of the attempt that returned it.  Every
+    reconnect starts from an empty queue and an empty reader buffer (`sys_retries_exact_conn`), so nothing received
+    before a reconnect is ever returned.  What the code does NOT guarantee - and the model shows (example below) - is
+    that the message was sent after the request: a late reply to an earlier, timed-out request on the SAME connection
+    is handed to the next request (and returned when it matches the request's service). -/
+theorem sys_no_fabrication (P : SProto Q) (hP : Laws P.toProto) (cls : Bytes → Client.Ev) (c : LossSys.CCfg) (req : Bytes) (t : Nat)
+    (s : Sys Q) (es : List SEv) (d : Bytes) (h : (LossSys.request P cls c req (some t) s es).1 = .reply d) :
+    ∃ j tw w0, LossSys.FromConn P j d ∧ (LossSys.request P cls c req (some t) s es).2.1.wire = w0 ++ [(j, tw, req)] :=
+  LossSys.attempts_origin P hP cls c.lim req t c.maxRetry 0 s es (.missing false) (by simp) d h
+
+/-- one attempt: a reply is read on the connection the attempt wrote the request to, with no reconnect in between -/
+theorem sys_no_fabrication_attempt (P : SProto Q) (hP : Laws P.toProto) (cls : Bytes → Client.Ev) (lim : Client.Limits)
+    (req : Bytes) (tmo : Option Nat) (retry : Bool) (i : Nat) (s : Sys Q) (es : List SEv) (last : Out) (d : Bytes)
+    (s1 : Sys Q) (es1 : List SEv) (h : LossSys.attemptStep P cls lim req tmo retry i s es last = .fin (.reply d) s1 es1) :
+    LossSys.Same s s1 ∧ LossSys.FromConn P s.conn.idx d :=
+  (LossSys.attemptStep_conn P hP cls lim req tmo retry i s es last).1 d s1 es1 h
+
+/-- the attempts of a call and their connections: an attempt that is followed by another one either left the
+    connection alone (timeout, busy: `Same` - the next write goes out on the same connection, no connection opened) or
+    ended with a loss that surfaced as ConnectionError / end-of-stream (`missing true`) and was followed by exactly one
+    reconnect: the next attempt runs on the newest connection, opened after the loss, with an empty queue and buffer;
+    an attempt that ended in a timeout (`missing false`) never reconnects -/
+theorem sys_retries_exact_conn (P : SProto Q) (hP : Laws P.toProto) (cls : Bytes → Client.Ev) (lim : Client.Limits)
+    (req : Bytes) (tmo : Option Nat) (retry : Bool) (i : Nat) (s : Sys Q) (es : List SEv) (last : Out) :
+    (∀ s1 es1 l, LossSys.attemptStep P cls lim req tmo retry i s es last = .next s1 es1 l →
+      LossSys.Same s s1 ∨ (l = .missing true ∧ retry = true ∧ LossSys.Renewed P s s1)) ∧
+    (∀ s1 es1, LossSys.attemptStep P cls lim req tmo retry i s es last = .next s1 es1 (.missing false) → LossSys.Same s s1) :=
+  (LossSys.attemptStep_conn P hP cls lim req tmo retry i s es last).2
+
+/-- the three transports satisfy the hypothesis of the no-fabrication theorems -/
+theorem sys_laws : Laws LossSys.linesS.toProto ∧ (∀ cfg, Laws (LossSys.doipS cfg).toProto) ∧ (∀ cfg, Laws (LossSys.hsfzS cfg).toProto) :=
+  ⟨linesLaws, doipLaws, hsfzLaws⟩
+
 /-! examples: the hypotheses are satisfiable and the exact bound is attained -/
 
 theorem exCls_no_pending : ∀ d, exCls d ≠ .pending := by intro d; unfold exCls; split <;> simp
